@@ -288,15 +288,16 @@ structure FrameT (cfg : Cfg) (c : Nat) (r : Region) (m m' : Mem α) : Prop where
   nid : m.nextId ≤ m'.nextId
   fresh : Fresh m → Fresh m'
   bufOther : ∀ r', r' ≠ r → r' ≠ .tmp → (∀ id, r' = .blk id → id < m.nextId) → m'.buf r' = m.buf r'
+  cntOther : ∀ id, Region.blk id ≠ r → id < m.nextId → m'.cnt id = m.cnt id
   noLeak : NoLeak cfg c m m'
 
 theorem FrameL.toT {cfg : Cfg} {c : Nat} {r : Region} {m m' : Mem α} (h : FrameL cfg c r m m') : FrameT cfg c r m m' :=
-  ⟨h.cat, h.hr, h.wsLen, h.wsOther, h.nid, h.fresh, fun r' hne _ hold => h.bufOther r' hne hold, h.noLeak⟩
+  ⟨h.cat, h.hr, h.wsLen, h.wsOther, h.nid, h.fresh, fun r' hne _ hold => h.bufOther r' hne hold, h.cntOther, h.noLeak⟩
 
 /-- the temporary holds at the end what it held at the start: the whole operation is framed -/
 theorem FrameT.toG {cfg : Cfg} {c : Nat} {r : Region} {m m' : Mem α} (h : FrameT cfg c r m m') (ht : m'.buf .tmp = m.buf .tmp) :
     FrameL cfg c r m m' := by
-  refine ⟨⟨h.cat, h.hr, h.wsLen, h.wsOther, h.nid, h.fresh, ?_⟩, h.noLeak⟩
+  refine ⟨⟨h.cat, h.hr, h.wsLen, h.wsOther, h.nid, h.fresh, ?_, h.cntOther⟩, h.noLeak⟩
   intro r' hne hold
   by_cases htmp : r' = .tmp
   · subst htmp; exact ht
@@ -309,6 +310,7 @@ theorem FrameT.step {cfg : Cfg} {c : Nat} {r0 r1 : Region} {m m1 m2 : Mem α} (h
     (hb : ∀ r', r' ≠ r1 → r' ≠ .tmp → m2.buf r' = m1.buf r') : FrameT cfg c r0 m m2 := by
   refine ⟨hk.cat.trans h.cat, hk.hr.trans h.hr, by rw [hk.ws]; exact h.wsLen, fun c' hc => by rw [hk.ws]; exact h.wsOther c' hc,
     by rw [hk.nid]; exact h.nid, fun hf id hid => by rw [hk.nid]; exact h.fresh hf id (hsome id hid), ?_,
+    fun id hne hlt => (hk.cnt id).trans (h.cntOther id hne hlt),
     h.noLeak.step hsome (OwnsBlk.congr (by rw [hk.ws]))⟩
   intro r' hne htmp hold
   have hne1 : r' ≠ r1 := by
@@ -329,6 +331,7 @@ theorem FrameT.withWs {cfg : Cfg} {c : Nat} {r0 : Region} {m m1 : Mem α} (h : F
       rw [withWs_buf] at hid
       exact h.fresh hf id hid,
     fun r' hne htmp hold => by rw [withWs_buf]; exact h.bufOther r' hne htmp hold,
+    fun id hne hlt => (withWs_cnt _ _ _).trans (h.cntOther id hne hlt),
     h.noLeak.step (fun id hid => by rw [withWs_buf] at hid; exact hid) (OwnsBlk.withWs hws hbeg hcap)⟩
 
 theorem OpsB.tmp_isSome (m : Mem α) : (m.buf .tmp).isSome := rfl
@@ -422,7 +425,9 @@ theorem FrameT.trans {cfg : Cfg} {c : Nat} {r : Region} {m m1 m2 : Mem α} (h1 :
   ⟨h2.cat.trans h1.cat, h2.hr.trans h1.hr, h2.wsLen.trans h1.wsLen, fun c' hc => (h2.wsOther c' hc).trans (h1.wsOther c' hc),
     Nat.le_trans h1.nid h2.nid, fun hf => h2.fresh (h1.fresh hf),
     fun r' hne htmp hold => (h2.bufOther r' hne htmp (fun id hid => Nat.lt_of_lt_of_le (hold id hid) h1.nid)).trans
-      (h1.bufOther r' hne htmp hold), h1.noLeak.trans h2.noLeak h1.nid⟩
+      (h1.bufOther r' hne htmp hold),
+    fun id hne hlt => (h2.cntOther id hne (Nat.lt_of_lt_of_le hlt h1.nid)).trans (h1.cntOther id hne hlt),
+    h1.noLeak.trans h2.noLeak h1.nid⟩
 
 theorem FrameT.same {cfg : Cfg} {c : Nat} {r0 : Region} {m m1 m2 : Mem α} (h : FrameT cfg c r0 m m1) (hs : Same m1 m2) : FrameT cfg c r0 m m2 :=
   h.step (r1 := r0) (Or.inl rfl) hs.2 (fun id hid => by rw [hs.1] at hid; exact hid) (fun r' _ _ => by rw [hs.1])
